@@ -1,2 +1,3 @@
 import Drv.Browser
 import Drv.Diag
+import Drv.Slice
